@@ -123,6 +123,42 @@ func runC03(c *an.Ctx) {
 			}
 			nStores++
 			okLit := rd != nil && trd != nil && an.Str(trd) == "rightTrimMarker + "+an.Str(rd)
+			if rd == nil && trd == nil {
+				// the literal leaves both unset and the constructor sets them through a coupled writer (a function
+				// that stores rightDelim, checked above) with a non-empty constant
+				an.InspectOwn(f, func(m ast.Node) bool {
+					call, isCall := m.(*ast.CallExpr)
+					if !isCall || call.Pos() < cl.End() {
+						return true
+					}
+					g := p.FnByObj[an.Callee(info, call)]
+					if g == nil || g.Body == nil {
+						return true
+					}
+					writes := false
+					an.InspectBody(g, func(k ast.Node) bool {
+						an.Assigns(k, func(lhs, _ ast.Expr, _ token.Token) {
+							if p.FieldKey(g.Info(), lhs) == "lexer.rightDelim" {
+								writes = true
+							}
+						})
+						return true
+					})
+					if !writes {
+						return true
+					}
+					allConst := len(call.Args) > 0
+					for _, a := range call.Args {
+						if tv, ok := info.Types[a]; !ok || tv.Value == nil || tv.Value.Kind() != constant.String || constant.StringVal(tv.Value) == "" {
+							allConst = false
+						}
+					}
+					if allConst {
+						okLit = true
+					}
+					return true
+				})
+			}
 			c.Check(okLit, "C03.coupled", f.Name+"/literal", cl.Pos(), "the lexer literal initialises trimRightDelim as rightTrimMarker + rightDelim", "the lexer literal in "+f.Name+" does not initialise trimRightDelim as rightTrimMarker + the rightDelim it sets")
 			return true
 		})
@@ -256,7 +292,26 @@ func runC03(c *an.Ctx) {
 		case "lexComment":
 			c.OK("C03.drop", key, s.Call.Pos(), "a comment contributes nothing")
 		case "lexLeftDelim", "lexRightDelim":
-			pr := p.ProbeFn(s.Fn, []ast.Node{s.Call}, an.Hooks{})
+			pr := p.ProbeFn(s.Fn, []ast.Node{s.Call}, an.Hooks{PreAssign: func(x *an.Explorer, lhs, rhs ast.Expr, stmt ast.Node, st *an.State) {
+				// a helper's parameter bound to one of the trim marker constants
+				if id, ok := an.Unparen(lhs).(*ast.Ident); ok && rhs != nil {
+					st.Set("mk:"+id.Name, "")
+					if rid, ok := an.Unparen(rhs).(*ast.Ident); ok && (rid.Name == "leftTrimMarker" || rid.Name == "rightTrimMarker") {
+						st.Set("mk:"+id.Name, rid.Name)
+					}
+				}
+			}, Branch: func(x *an.Explorer, cond ast.Expr, val bool, st *an.State) {
+				// the marker test itself, remembered beyond the position update that follows it
+				e := an.Unparen(cond)
+				if u, ok := e.(*ast.UnaryExpr); ok && u.Op == token.NOT {
+					e, val = an.Unparen(u.X), !val
+				}
+				if call, ok := e.(*ast.CallExpr); ok && val && an.IsCallTo(s.Fn.Info(), call, "strings.HasPrefix") && len(call.Args) == 2 {
+					if id, ok := an.Unparen(call.Args[1]).(*ast.Ident); ok && (id.Name == "leftTrimMarker" || id.Name == "rightTrimMarker" || st.Get("mk:"+id.Name) != "") {
+						st.Set("markerSeen", "1")
+					}
+				}
+			}})
 			c.States += pr.X.Visited
 			ok := len(pr.At[s.Call]) > 0
 			for _, st := range pr.At[s.Call] {
@@ -266,9 +321,15 @@ func runC03(c *an.Ctx) {
 					if v && strings.HasPrefix(pk, "strings.HasPrefix(") && (strings.HasSuffix(pk, "leftTrimMarker)") || strings.HasSuffix(pk, "rightTrimMarker)")) {
 						marker = true
 					}
+					if m := hasPrefixArgRe.FindStringSubmatch(pk); v && m != nil && st.Get("mk:"+m[1]) != "" {
+						marker = true
+					}
 					if v && pk == "trimSpace" {
 						marker = true
 					}
+				}
+				if st.Get("markerSeen") != "" {
+					marker = true
 				}
 				if !marker {
 					ok = false
@@ -674,6 +735,40 @@ func c03textOnlyList(c *an.Ctx, f *an.Fn, elem types.Object) bool {
 	if list == nil {
 		return false
 	}
+	// the list may be handed back by a helper the loop was moved into: its result variable is the same list
+	lists := map[types.Object]bool{list: true}
+	an.InspectOwn(f, func(n ast.Node) bool {
+		as, ok := n.(*ast.AssignStmt)
+		if !ok || len(as.Rhs) != 1 {
+			return true
+		}
+		call, ok := an.Unparen(as.Rhs[0]).(*ast.CallExpr)
+		if !ok {
+			return true
+		}
+		h := p.NewHelperCallee(f, call)
+		if h == nil || h.Sig == nil || h.Sig.Results().Len() != len(as.Lhs) {
+			return true
+		}
+		for i, l := range as.Lhs {
+			if id, ok := l.(*ast.Ident); ok && lists[an.ObjOf(info, id)] {
+				if rv := h.Sig.Results().At(i); rv.Name() != "" {
+					lists[rv] = true
+				}
+				an.InspectBody(h, func(m ast.Node) bool {
+					if ret, ok := m.(*ast.ReturnStmt); ok && len(ret.Results) == len(as.Lhs) {
+						if rid, ok := an.Unparen(ret.Results[i]).(*ast.Ident); ok {
+							if o := an.ObjOf(info, rid); o != nil {
+								lists[o] = true
+							}
+						}
+					}
+					return true
+				})
+			}
+		}
+		return true
+	})
 	var appends []ast.Node
 	srcOf := map[ast.Node]string{}
 	okShape := true
@@ -683,7 +778,7 @@ func c03textOnlyList(c *an.Ctx, f *an.Fn, elem types.Object) bool {
 			return true
 		}
 		id, ok := an.Unparen(as.Lhs[0]).(*ast.Ident)
-		if !ok || an.ObjOf(info, id) != list {
+		if !ok || !lists[an.ObjOf(info, id)] {
 			return true
 		}
 		call, ok := an.Unparen(as.Rhs[0]).(*ast.CallExpr)
@@ -691,7 +786,7 @@ func c03textOnlyList(c *an.Ctx, f *an.Fn, elem types.Object) bool {
 			okShape = false
 			return true
 		}
-		if first, ok := an.Unparen(call.Args[0]).(*ast.Ident); !ok || an.ObjOf(info, first) != list {
+		if first, ok := an.Unparen(call.Args[0]).(*ast.Ident); !ok || !lists[an.ObjOf(info, first)] {
 			okShape = false
 		}
 		appends = append(appends, as)
@@ -827,6 +922,7 @@ func c03lexText(c *an.Ctx, f *an.Fn, ign *ast.CallExpr) {
 	}
 }
 
+var hasPrefixArgRe = regexp.MustCompile(`^strings\.HasPrefix\(.*, (\w+)\)$`)
 var trimCallRe = regexp.MustCompile(`^(left|right)TrimLength\((.+)\)$`)
 var trimInlineRe = regexp.MustCompile(`^Pos\(\(len\((.+)\) - len\(strings\.Trim(Left|Right)(?:Func)?\((.+), [^,()]+\)\)\)\)$`)
 
